@@ -25,6 +25,8 @@ mod packet_tests;
 
 #[cfg(feature = "verif")]
 pub use send_rate::{SendRateComp, FeedbackData};
+#[cfg(feature = "verif")]
+pub use loss_rate::LossIntervalQueue;
 
 const INITIAL_RTT_ESTIMATE_MS: u64 = 150;
 const INITIAL_RTO_ESTIMATE_MS: u64 = 4*INITIAL_RTT_ESTIMATE_MS;
